@@ -26,6 +26,8 @@ Stage "pump" (one evaluation = one fresh environment):
     second-resume-accepted / preempt-before-resume-accepted  the guards must refuse (AssertionError) and queue nothing
     later-flow-affected  two further events of another flow are each handed back exactly once, whatever happened before
     queue-consumption    every pump consumes exactly one event
+    transfer-*           URL rewritten / response injected / can_stream cleared by an addon before the hand-back is what the
+                         callback state delivers to the mitmproxy side (not for wrapper caps, which the event manager rewrites itself)
 Stage "state": HippoHTTPFlow.from_state(flow.get_state(), session_manager), directly and through pickle, for every cap kind
   x 2 sessions x 2 regions x flags x every subset of {rewritten URL, injected response, can_stream cleared}: cap name, type,
   base URL, *identity* of session and region, request_injected, response_injected, can_stream, from_browser, URL, response
@@ -155,12 +157,15 @@ class ScriptedAddon:
             elif b == "inject":
                 flow.response = Response.make(INJ_STATUS, INJ_BODY, dict(INJ_HEADERS))
                 self.log.append("injected")
+                self.board.append((self.name, "injected"))
             elif b == "rewrite":
                 flow.request.url = REWRITTEN
                 self.log.append("rewrote")
+                self.board.append((self.name, "rewrote"))
             elif b == "nostream":
                 flow.can_stream = False
                 self.log.append("nostream")
+                self.board.append((self.name, "nostream"))
             elif b == "handled":
                 ret = True
             elif b == "resume_preempt":
@@ -417,8 +422,8 @@ def evaluate_pump_case(case) -> Tuple[List[Dict[str, Any]], Any, bool]:
         _install_faults(w, fid, event, faults, si, ri)
         if event == "request":
             env.mitm_request(flow)
-        actors = [w.a1, w.a2, w.sess_subs[si], w.reg_subs[(si, ri)]]
         n_cb = 0
+        cb_state: List[Any] = []
 
         def owned() -> bool:
             # the flow is owned from the first successful take() until the (single possible) successful resume()
@@ -430,6 +435,7 @@ def evaluate_pump_case(case) -> Tuple[List[Dict[str, Any]], Any, bool]:
             items = env.take_to_proxy()
             mine = [i for i in items if i[0] == "callback" and i[1] == fid]
             n_cb += len(mine)
+            cb_state.extend(i[2] for i in mine)
             if n_cb > 1 and mine:
                 bad("handback-duplicate", f"{label}: {n_cb} callbacks for the flow so far (addon logs {w.a1.log} {w.a2.log})")
             elif n_cb > 1:
@@ -507,6 +513,25 @@ def evaluate_pump_case(case) -> Tuple[List[Dict[str, Any]], Any, bool]:
                 bad("handback-while-owned", f"flow still owned at the end, {n_cb} callbacks were queued")
         elif n_cb != 1:
             bad("handback-immediate" if not was_owned else "handback-on-release", f"{n_cb} callbacks in total for a released flow")
+        # ---- what the mitmproxy side receives: modifications made before the hand-back are in the callback state
+        if len(cb_state) == 1 and kind != "wrapper":     # (the event manager itself rewrites wrapper requests / answers 307)
+            acts = [a for _n, a in w.board]
+            upto = acts.index("resumed") if "resumed" in acts else len(acts)
+            mods_before = set(acts[:upto]) & {"injected", "rewrote", "nostream"}
+            if mods_before:
+                got = HTTPFlow.from_state(pickle.loads(pickle.dumps(cb_state[0])))
+                if "rewrote" in mods_before and got.request.url != REWRITTEN:
+                    bad("transfer-rewritten-url", f"addon rewrote the URL to {REWRITTEN}, callback state carries {got.request.url!r}")
+                if "injected" in mods_before:
+                    r = got.response
+                    if r is None or r.status_code != INJ_STATUS or r.content != INJ_BODY or r.headers.get("X-Inj") != "1" \
+                            or r.headers.get("Content-Type") != INJ_HEADERS["Content-Type"]:
+                        bad("transfer-injected-response", f"addon injected {INJ_STATUS} {INJ_BODY!r}, callback state carries "
+                                                          f"{r and (r.status_code, r.content[:60], dict(r.headers))!r}")
+                    if got.metadata.get("response_injected") is not True:
+                        bad("transfer-flag-response_injected", f"metadata after injection: {got.metadata.get('response_injected')!r}")
+                if "nostream" in mods_before and got.metadata.get("can_stream") is not False:
+                    bad("transfer-flag-can_stream", f"addon cleared can_stream, callback state carries {got.metadata.get('can_stream')!r}")
         fired = sorted(k for k, v in w.fired.items() if v) + [a.name for a in (w.a1, w.a2) if "raised" in a.log] + \
             [s.name for s in (w.sess_subs[si], w.reg_subs[(si, ri)]) if s.log] + (["logger"] if w.logger.fired else [])
         acted = [a.log for a in (w.a1, w.a2)]
@@ -875,6 +900,8 @@ def run(run: Run):
     run.coverage_extra["behaviours"] = list(BEHAVIOURS)
     for c in (cases[0], cases[len(cases) // 3], cases[-1]):
         run.sample({"case": c})
+    import time
+    run.coverage_extra["wall"] = round(time.time() - run.t0, 1)
 
 
 def replay(witness):
